@@ -21,7 +21,9 @@ RULE = ('generated (type, document) cases loaded from a str, a pathlib.Path, an 
         'indent, ensure_ascii) cases dumped with dump_function / dump_json_function to a file name, a Path '
         'and an open text stream: exactly the text dumps_function / dumps_json_function return.  The '
         'call-site table regenerated from the source is what the theorems are about.  Non-trivial = the '
-        'document or value is not a bare scalar.')
+        'document or value is not a bare scalar.'
+        "Also: documents that pass recognition and fail in PyYAML's scalar constructors, from"
+        ' every source kind.')
 ASSUMPTIONS = ['a text stream, a binary stream (UTF-8) and a str decode to the same characters; '
                'Path.open("w") writes what StringIO collects (default encoding UTF-8 in this environment)']
 
